@@ -865,8 +865,12 @@ pub mod wf {
         ecs_name!(WF);
         #[archetype_id(5)]
         ecs_archetype!(ArchZF, CompZ, CompB);
-        ecs_archetype!(ArchYF, CompY, CompA, CompZ);
-        ecs_archetype!(ArchU, CompU);
+        // a disabled archetype and disabled components behave as absent: ids, column order and
+        // query matching of everything else are as if they had not been written
+        #[cfg(any())]
+        ecs_archetype!(ArchOff, CompA, CompB);
+        ecs_archetype!(ArchYF, CompY, #[cfg(any())] CompB, CompA, CompZ);
+        ecs_archetype!(ArchU, #[cfg(any())] CompS, CompU, #[cfg(all())] #[cfg(any())] CompH);
         #[archetype_id(77)]
         ecs_archetype!(ArchOdd, CompS5, CompA16, CompS7, CompP12, CompA32, CompS6);
     }
